@@ -44,12 +44,14 @@ bool vf_near(double a, double b, double tol)
   double m = std::fmax(1.0, std::fmax(std::fabs(a), std::fabs(b)));
   return std::fabs(a - b) <= tol * m;
 }
-bool vf_angle_eq(double a, double b) { return std::fabs(a - b) <= 1e-9; }
-bool vf_angle_congruent(double a, double b) { return std::fabs(std::remainder(a - b, 2 * M_PI)) <= 1e-9; }
+static double g_tol = 1e-9;
+void vf_tol(double t) { g_tol = t; }
+bool vf_angle_eq(double a, double b) { return std::fabs(a - b) <= g_tol; }
+bool vf_angle_congruent(double a, double b) { return std::fabs(std::remainder(a - b, 2 * M_PI)) <= g_tol; }
 bool vf_eq(double a, double b)
 {
   double m = std::fmax(1.0, std::fmax(std::fabs(a), std::fabs(b)));
-  return std::fabs(a - b) <= 1e-9 * m;
+  return std::fabs(a - b) <= g_tol * m;
 }
 void vf_assume(bool c)
 {
